@@ -109,7 +109,7 @@ def run_property(prop: str, tier: str) -> int:
             printed.add(k["key"])
             print(f"KNOWN-FINDING: property={prop} {k['what']}")
     vio_out = []
-    for ob in violations[:40]:
+    for ob in violations[:12]:
         path, reproduced, out = write_replay(prop, ob)
         rel = os.path.relpath(path, VERIF)
         line = f"VIOLATION property={prop} replay={rel}"
@@ -121,8 +121,10 @@ def run_property(prop: str, tier: str) -> int:
             print("  " + out.splitlines()[0][:400])
         vio_out.append({"key": ob.key, "replay": rel, "reproduced": reproduced})
         rc = 1
-    if len(violations) > 40:
-        print(f"  ... and {len(violations) - 40} more refuted obligations")
+    for ob in violations[12:60]:
+        print(f"VIOLATION property={prop} replay=- no-failing-input-found (replay not generated: too many) obligation={ob.key}")
+    if len(violations) > 60:
+        print(f"  ... and {len(violations) - 60} more refuted obligations")
     for ob in undecided[:20]:
         print(f"UNDECIDED property={prop} obligation={ob.key} ({ob.status}: {ob.reason[:200]})")
     if undecided and rc == 0:
